@@ -41,7 +41,7 @@ def build(variant, quiet=True):
             "ninja_required_version = 1.5",
             f"cxxflags = {san} {defs} {inc} -w -std=gnu++14 -pthread",
             f"cflags = {san} {defs} {inc} -w -pthread",
-            f"simflags = -O2 -g {defs} {inc} -I{VERIF}/sim -w -std=gnu++14 -pthread -fno-omit-frame-pointer",
+            f"simflags = -O2 -g -fno-builtin {defs} {inc} -I{VERIF}/sim -w -std=gnu++14 -pthread -fno-omit-frame-pointer",
             f"exeflags = {san} {defs} {inc} -I{VERIF}/sim -w -std=gnu++14 -pthread",
             "rule cxx\n  command = clang++ $cxxflags -MMD -MF $out.d -c $in -o $out\n  depfile = $out.d\n  deps = gcc\n  description = CXX $out",
             "rule cc\n  command = clang $cflags -MMD -MF $out.d -c $in -o $out\n  depfile = $out.d\n  deps = gcc\n  description = CC $out",
